@@ -308,6 +308,9 @@ def programs():
 
     out = _symmetry() + _math() + _cleanup() + _minmax() + _sumchains() + _normalize() + _unused() + _duplication() + _robust() + _domains() + _projection()
     out += extra2.programs()  # second round of seeded changes
+    from . import extra3
+
+    out += extra3.programs()  # third round
     # the harness samples stratified by tag: give every variant of a class its own tag (class#variant)
     seen: dict = {}
     for prog in out:
